@@ -74,6 +74,7 @@ fn c11_otaa_prepare_buffer() {
 // ------------------------------------------------------------------ Otaa::handle_rx
 fn otaa_handle_rx_contract<const WELL_FORMED: bool>(ri: usize, len: usize) {
     tape::init();
+    kani::cover!(true, "verif-reached: harness entered");
     let mut region = region::Configuration::new(ALL_REGIONS[ri]);
     let mut cfg = any_mac_configuration(&region);
     let old_cfg = cfg;
@@ -96,7 +97,7 @@ fn otaa_handle_rx_contract<const WELL_FORMED: bool>(ri: usize, len: usize) {
     if !structure_ok {
         assert!(r.is_none() && g.calls == 0 && g.mic_calls == 0, "C11/C07 not a JoinAccept: nothing decrypted, no session");
         assert!(cfg == old_cfg && region.channel_mask_get() == old_mask && o.dev_nonce == nonce, "C07 invalid JoinAccept changes nothing");
-        if !WELL_FORMED { kani::cover!(true, "verif-reached: structure rejected"); }
+        kani::cover!(true, "verif-maybe: structure rejected");
         return;
     }
     let nblk = (len - 1) / 16;
@@ -111,7 +112,7 @@ fn otaa_handle_rx_contract<const WELL_FORMED: bool>(ri: usize, len: usize) {
     assert!(r.is_some() == mic_ok, "C11 joined exactly when the MIC verifies under the root key");
     if !mic_ok {
         assert!(cfg == old_cfg && region.channel_mask_get() == old_mask && o.dev_nonce == nonce && g.calls as usize == nblk, "C07 a JoinAccept failing its MIC changes nothing and derives no keys");
-        if WELL_FORMED { kani::cover!(true, "verif-reached: MIC rejected"); }
+        kani::cover!(true, "verif-maybe: MIC rejected");
         return;
     }
     let s = r.unwrap();
@@ -138,131 +139,129 @@ fn otaa_handle_rx_contract<const WELL_FORMED: bool>(ri: usize, len: usize) {
     assert!(cfg.rx1_dr_offset == (if off_ok { off } else { old_cfg.rx1_dr_offset }), "C11 RX1DROffset applied when valid for the region, ignored when not");
     assert!(cfg.rx2_data_rate == (if dr_defined(&region, rx2) { Some(DR::from(rx2)) } else { old_cfg.rx2_data_rate }), "C11 RX2 data rate applied when the region defines it, ignored when not");
     assert!(cfg.data_rate == old_cfg.data_rate && cfg.tx_power == old_cfg.tx_power && cfg.rx2_frequency == old_cfg.rx2_frequency && cfg.adr_enabled == old_cfg.adr_enabled, "other MAC parameters untouched by a join");
-    if WELL_FORMED {
-        kani::cover!(off_ok, "verif-reached: joined, offset valid");
-        kani::cover!(!dr_defined(&region, rx2), "verif-reached: joined, RX2 DR undefined (e.g. 15)");
-    }
+    kani::cover!(off_ok, "verif-maybe: joined, offset valid");
+    kani::cover!(!dr_defined(&region, rx2), "verif-maybe: joined, RX2 DR undefined (e.g. 15)");
 }
-// @verif props=C11,C04,C07,C02 obligation=Otaa::handle_rx.contract[AS923_1,len=17] label=proved-complete tier=thorough bound="JoinAccept length 17 (the only lengths the parser accepts are 17 and 33; others: see len=12 harness); every byte of the received frame, of the decrypted frame and of the MIC symbolic"
+// @verif props=C11,C04,C07 obligation=Otaa::handle_rx.contract[AS923_1,len=17] label=proved-complete tier=thorough bound="JoinAccept length 17 (the only lengths the parser accepts are 17 and 33; others: see len=12 harness); every byte of the received frame, of the decrypted frame and of the MIC symbolic"
 #[kani::proof]
 #[kani::stub(lorawan::default_crypto::DefaultCrypto::new, stub_crypto_new)]
 #[kani::stub(<lorawan::default_crypto::DefaultCrypto as lorawan::keys::Crypto>::calculate_mic, stub_calculate_mic_join)]
 #[kani::stub(<lorawan::default_crypto::DefaultCrypto as lorawan::keys::Crypto>::encrypt_block, stub_encrypt_block_join)]
 #[kani::unwind(74)]
 fn c11_otaa_handle_rx_as923_1_17() { otaa_handle_rx_contract::<true>(0, 17) }
-// @verif props=C11,C04,C07,C02 obligation=Otaa::handle_rx.contract[AS923_1,len=33] label=proved-complete tier=thorough bound="JoinAccept length 33 (the only lengths the parser accepts are 17 and 33; others: see len=12 harness); every byte of the received frame, of the decrypted frame and of the MIC symbolic"
+// @verif props=C11,C04,C07 obligation=Otaa::handle_rx.contract[AS923_1,len=33] label=proved-complete tier=thorough bound="JoinAccept length 33 (the only lengths the parser accepts are 17 and 33; others: see len=12 harness); every byte of the received frame, of the decrypted frame and of the MIC symbolic"
 #[kani::proof]
 #[kani::stub(lorawan::default_crypto::DefaultCrypto::new, stub_crypto_new)]
 #[kani::stub(<lorawan::default_crypto::DefaultCrypto as lorawan::keys::Crypto>::calculate_mic, stub_calculate_mic_join)]
 #[kani::stub(<lorawan::default_crypto::DefaultCrypto as lorawan::keys::Crypto>::encrypt_block, stub_encrypt_block_join)]
 #[kani::unwind(74)]
 fn c11_otaa_handle_rx_as923_1_33() { otaa_handle_rx_contract::<true>(0, 33) }
-// @verif props=C11,C04,C07,C02 obligation=Otaa::handle_rx.contract[AS923_2,len=17] label=proved-complete tier=thorough bound="JoinAccept length 17 (the only lengths the parser accepts are 17 and 33; others: see len=12 harness); every byte of the received frame, of the decrypted frame and of the MIC symbolic"
+// @verif props=C11,C04,C07 obligation=Otaa::handle_rx.contract[AS923_2,len=17] label=proved-complete tier=thorough bound="JoinAccept length 17 (the only lengths the parser accepts are 17 and 33; others: see len=12 harness); every byte of the received frame, of the decrypted frame and of the MIC symbolic"
 #[kani::proof]
 #[kani::stub(lorawan::default_crypto::DefaultCrypto::new, stub_crypto_new)]
 #[kani::stub(<lorawan::default_crypto::DefaultCrypto as lorawan::keys::Crypto>::calculate_mic, stub_calculate_mic_join)]
 #[kani::stub(<lorawan::default_crypto::DefaultCrypto as lorawan::keys::Crypto>::encrypt_block, stub_encrypt_block_join)]
 #[kani::unwind(74)]
 fn c11_otaa_handle_rx_as923_2_17() { otaa_handle_rx_contract::<true>(1, 17) }
-// @verif props=C11,C04,C07,C02 obligation=Otaa::handle_rx.contract[AS923_2,len=33] label=proved-complete tier=thorough bound="JoinAccept length 33 (the only lengths the parser accepts are 17 and 33; others: see len=12 harness); every byte of the received frame, of the decrypted frame and of the MIC symbolic"
+// @verif props=C11,C04,C07 obligation=Otaa::handle_rx.contract[AS923_2,len=33] label=proved-complete tier=thorough bound="JoinAccept length 33 (the only lengths the parser accepts are 17 and 33; others: see len=12 harness); every byte of the received frame, of the decrypted frame and of the MIC symbolic"
 #[kani::proof]
 #[kani::stub(lorawan::default_crypto::DefaultCrypto::new, stub_crypto_new)]
 #[kani::stub(<lorawan::default_crypto::DefaultCrypto as lorawan::keys::Crypto>::calculate_mic, stub_calculate_mic_join)]
 #[kani::stub(<lorawan::default_crypto::DefaultCrypto as lorawan::keys::Crypto>::encrypt_block, stub_encrypt_block_join)]
 #[kani::unwind(74)]
 fn c11_otaa_handle_rx_as923_2_33() { otaa_handle_rx_contract::<true>(1, 33) }
-// @verif props=C11,C04,C07,C02 obligation=Otaa::handle_rx.contract[AS923_3,len=17] label=proved-complete tier=thorough bound="JoinAccept length 17 (the only lengths the parser accepts are 17 and 33; others: see len=12 harness); every byte of the received frame, of the decrypted frame and of the MIC symbolic"
+// @verif props=C11,C04,C07 obligation=Otaa::handle_rx.contract[AS923_3,len=17] label=proved-complete tier=thorough bound="JoinAccept length 17 (the only lengths the parser accepts are 17 and 33; others: see len=12 harness); every byte of the received frame, of the decrypted frame and of the MIC symbolic"
 #[kani::proof]
 #[kani::stub(lorawan::default_crypto::DefaultCrypto::new, stub_crypto_new)]
 #[kani::stub(<lorawan::default_crypto::DefaultCrypto as lorawan::keys::Crypto>::calculate_mic, stub_calculate_mic_join)]
 #[kani::stub(<lorawan::default_crypto::DefaultCrypto as lorawan::keys::Crypto>::encrypt_block, stub_encrypt_block_join)]
 #[kani::unwind(74)]
 fn c11_otaa_handle_rx_as923_3_17() { otaa_handle_rx_contract::<true>(2, 17) }
-// @verif props=C11,C04,C07,C02 obligation=Otaa::handle_rx.contract[AS923_3,len=33] label=proved-complete tier=thorough bound="JoinAccept length 33 (the only lengths the parser accepts are 17 and 33; others: see len=12 harness); every byte of the received frame, of the decrypted frame and of the MIC symbolic"
+// @verif props=C11,C04,C07 obligation=Otaa::handle_rx.contract[AS923_3,len=33] label=proved-complete tier=thorough bound="JoinAccept length 33 (the only lengths the parser accepts are 17 and 33; others: see len=12 harness); every byte of the received frame, of the decrypted frame and of the MIC symbolic"
 #[kani::proof]
 #[kani::stub(lorawan::default_crypto::DefaultCrypto::new, stub_crypto_new)]
 #[kani::stub(<lorawan::default_crypto::DefaultCrypto as lorawan::keys::Crypto>::calculate_mic, stub_calculate_mic_join)]
 #[kani::stub(<lorawan::default_crypto::DefaultCrypto as lorawan::keys::Crypto>::encrypt_block, stub_encrypt_block_join)]
 #[kani::unwind(74)]
 fn c11_otaa_handle_rx_as923_3_33() { otaa_handle_rx_contract::<true>(2, 33) }
-// @verif props=C11,C04,C07,C02 obligation=Otaa::handle_rx.contract[AS923_4,len=17] label=proved-complete tier=thorough bound="JoinAccept length 17 (the only lengths the parser accepts are 17 and 33; others: see len=12 harness); every byte of the received frame, of the decrypted frame and of the MIC symbolic"
+// @verif props=C11,C04,C07 obligation=Otaa::handle_rx.contract[AS923_4,len=17] label=proved-complete tier=thorough bound="JoinAccept length 17 (the only lengths the parser accepts are 17 and 33; others: see len=12 harness); every byte of the received frame, of the decrypted frame and of the MIC symbolic"
 #[kani::proof]
 #[kani::stub(lorawan::default_crypto::DefaultCrypto::new, stub_crypto_new)]
 #[kani::stub(<lorawan::default_crypto::DefaultCrypto as lorawan::keys::Crypto>::calculate_mic, stub_calculate_mic_join)]
 #[kani::stub(<lorawan::default_crypto::DefaultCrypto as lorawan::keys::Crypto>::encrypt_block, stub_encrypt_block_join)]
 #[kani::unwind(74)]
 fn c11_otaa_handle_rx_as923_4_17() { otaa_handle_rx_contract::<true>(3, 17) }
-// @verif props=C11,C04,C07,C02 obligation=Otaa::handle_rx.contract[AS923_4,len=33] label=proved-complete tier=thorough bound="JoinAccept length 33 (the only lengths the parser accepts are 17 and 33; others: see len=12 harness); every byte of the received frame, of the decrypted frame and of the MIC symbolic"
+// @verif props=C11,C04,C07 obligation=Otaa::handle_rx.contract[AS923_4,len=33] label=proved-complete tier=thorough bound="JoinAccept length 33 (the only lengths the parser accepts are 17 and 33; others: see len=12 harness); every byte of the received frame, of the decrypted frame and of the MIC symbolic"
 #[kani::proof]
 #[kani::stub(lorawan::default_crypto::DefaultCrypto::new, stub_crypto_new)]
 #[kani::stub(<lorawan::default_crypto::DefaultCrypto as lorawan::keys::Crypto>::calculate_mic, stub_calculate_mic_join)]
 #[kani::stub(<lorawan::default_crypto::DefaultCrypto as lorawan::keys::Crypto>::encrypt_block, stub_encrypt_block_join)]
 #[kani::unwind(74)]
 fn c11_otaa_handle_rx_as923_4_33() { otaa_handle_rx_contract::<true>(3, 33) }
-// @verif props=C11,C04,C07,C02 obligation=Otaa::handle_rx.contract[AU915,len=17] label=proved-complete tier=thorough bound="JoinAccept length 17 (the only lengths the parser accepts are 17 and 33; others: see len=12 harness); every byte of the received frame, of the decrypted frame and of the MIC symbolic"
+// @verif props=C11,C04,C07 obligation=Otaa::handle_rx.contract[AU915,len=17] label=proved-complete tier=thorough bound="JoinAccept length 17 (the only lengths the parser accepts are 17 and 33; others: see len=12 harness); every byte of the received frame, of the decrypted frame and of the MIC symbolic"
 #[kani::proof]
 #[kani::stub(lorawan::default_crypto::DefaultCrypto::new, stub_crypto_new)]
 #[kani::stub(<lorawan::default_crypto::DefaultCrypto as lorawan::keys::Crypto>::calculate_mic, stub_calculate_mic_join)]
 #[kani::stub(<lorawan::default_crypto::DefaultCrypto as lorawan::keys::Crypto>::encrypt_block, stub_encrypt_block_join)]
 #[kani::unwind(74)]
 fn c11_otaa_handle_rx_au915_17() { otaa_handle_rx_contract::<true>(4, 17) }
-// @verif props=C11,C04,C07,C02 obligation=Otaa::handle_rx.contract[AU915,len=33] label=proved-complete tier=thorough bound="JoinAccept length 33 (the only lengths the parser accepts are 17 and 33; others: see len=12 harness); every byte of the received frame, of the decrypted frame and of the MIC symbolic"
+// @verif props=C11,C04,C07 obligation=Otaa::handle_rx.contract[AU915,len=33] label=proved-complete tier=thorough bound="JoinAccept length 33 (the only lengths the parser accepts are 17 and 33; others: see len=12 harness); every byte of the received frame, of the decrypted frame and of the MIC symbolic"
 #[kani::proof]
 #[kani::stub(lorawan::default_crypto::DefaultCrypto::new, stub_crypto_new)]
 #[kani::stub(<lorawan::default_crypto::DefaultCrypto as lorawan::keys::Crypto>::calculate_mic, stub_calculate_mic_join)]
 #[kani::stub(<lorawan::default_crypto::DefaultCrypto as lorawan::keys::Crypto>::encrypt_block, stub_encrypt_block_join)]
 #[kani::unwind(74)]
 fn c11_otaa_handle_rx_au915_33() { otaa_handle_rx_contract::<true>(4, 33) }
-// @verif props=C11,C04,C07,C02 obligation=Otaa::handle_rx.contract[EU868,len=17] label=proved-complete tier=quick bound="JoinAccept length 17 (the only lengths the parser accepts are 17 and 33; others: see len=12 harness); every byte of the received frame, of the decrypted frame and of the MIC symbolic"
+// @verif props=C11,C04,C07 obligation=Otaa::handle_rx.contract[EU868,len=17] label=proved-complete tier=quick bound="JoinAccept length 17 (the only lengths the parser accepts are 17 and 33; others: see len=12 harness); every byte of the received frame, of the decrypted frame and of the MIC symbolic"
 #[kani::proof]
 #[kani::stub(lorawan::default_crypto::DefaultCrypto::new, stub_crypto_new)]
 #[kani::stub(<lorawan::default_crypto::DefaultCrypto as lorawan::keys::Crypto>::calculate_mic, stub_calculate_mic_join)]
 #[kani::stub(<lorawan::default_crypto::DefaultCrypto as lorawan::keys::Crypto>::encrypt_block, stub_encrypt_block_join)]
 #[kani::unwind(74)]
 fn c11_otaa_handle_rx_eu868_17() { otaa_handle_rx_contract::<true>(5, 17) }
-// @verif props=C11,C04,C07,C02 obligation=Otaa::handle_rx.contract[EU868,len=33] label=proved-complete tier=quick bound="JoinAccept length 33 (the only lengths the parser accepts are 17 and 33; others: see len=12 harness); every byte of the received frame, of the decrypted frame and of the MIC symbolic"
+// @verif props=C11,C04,C07 obligation=Otaa::handle_rx.contract[EU868,len=33] label=proved-complete tier=quick bound="JoinAccept length 33 (the only lengths the parser accepts are 17 and 33; others: see len=12 harness); every byte of the received frame, of the decrypted frame and of the MIC symbolic"
 #[kani::proof]
 #[kani::stub(lorawan::default_crypto::DefaultCrypto::new, stub_crypto_new)]
 #[kani::stub(<lorawan::default_crypto::DefaultCrypto as lorawan::keys::Crypto>::calculate_mic, stub_calculate_mic_join)]
 #[kani::stub(<lorawan::default_crypto::DefaultCrypto as lorawan::keys::Crypto>::encrypt_block, stub_encrypt_block_join)]
 #[kani::unwind(74)]
 fn c11_otaa_handle_rx_eu868_33() { otaa_handle_rx_contract::<true>(5, 33) }
-// @verif props=C11,C04,C07,C02 obligation=Otaa::handle_rx.contract[EU433,len=17] label=proved-complete tier=thorough bound="JoinAccept length 17 (the only lengths the parser accepts are 17 and 33; others: see len=12 harness); every byte of the received frame, of the decrypted frame and of the MIC symbolic"
+// @verif props=C11,C04,C07 obligation=Otaa::handle_rx.contract[EU433,len=17] label=proved-complete tier=thorough bound="JoinAccept length 17 (the only lengths the parser accepts are 17 and 33; others: see len=12 harness); every byte of the received frame, of the decrypted frame and of the MIC symbolic"
 #[kani::proof]
 #[kani::stub(lorawan::default_crypto::DefaultCrypto::new, stub_crypto_new)]
 #[kani::stub(<lorawan::default_crypto::DefaultCrypto as lorawan::keys::Crypto>::calculate_mic, stub_calculate_mic_join)]
 #[kani::stub(<lorawan::default_crypto::DefaultCrypto as lorawan::keys::Crypto>::encrypt_block, stub_encrypt_block_join)]
 #[kani::unwind(74)]
 fn c11_otaa_handle_rx_eu433_17() { otaa_handle_rx_contract::<true>(6, 17) }
-// @verif props=C11,C04,C07,C02 obligation=Otaa::handle_rx.contract[EU433,len=33] label=proved-complete tier=thorough bound="JoinAccept length 33 (the only lengths the parser accepts are 17 and 33; others: see len=12 harness); every byte of the received frame, of the decrypted frame and of the MIC symbolic"
+// @verif props=C11,C04,C07 obligation=Otaa::handle_rx.contract[EU433,len=33] label=proved-complete tier=thorough bound="JoinAccept length 33 (the only lengths the parser accepts are 17 and 33; others: see len=12 harness); every byte of the received frame, of the decrypted frame and of the MIC symbolic"
 #[kani::proof]
 #[kani::stub(lorawan::default_crypto::DefaultCrypto::new, stub_crypto_new)]
 #[kani::stub(<lorawan::default_crypto::DefaultCrypto as lorawan::keys::Crypto>::calculate_mic, stub_calculate_mic_join)]
 #[kani::stub(<lorawan::default_crypto::DefaultCrypto as lorawan::keys::Crypto>::encrypt_block, stub_encrypt_block_join)]
 #[kani::unwind(74)]
 fn c11_otaa_handle_rx_eu433_33() { otaa_handle_rx_contract::<true>(6, 33) }
-// @verif props=C11,C04,C07,C02 obligation=Otaa::handle_rx.contract[IN865,len=17] label=proved-complete tier=thorough bound="JoinAccept length 17 (the only lengths the parser accepts are 17 and 33; others: see len=12 harness); every byte of the received frame, of the decrypted frame and of the MIC symbolic"
+// @verif props=C11,C04,C07 obligation=Otaa::handle_rx.contract[IN865,len=17] label=proved-complete tier=thorough bound="JoinAccept length 17 (the only lengths the parser accepts are 17 and 33; others: see len=12 harness); every byte of the received frame, of the decrypted frame and of the MIC symbolic"
 #[kani::proof]
 #[kani::stub(lorawan::default_crypto::DefaultCrypto::new, stub_crypto_new)]
 #[kani::stub(<lorawan::default_crypto::DefaultCrypto as lorawan::keys::Crypto>::calculate_mic, stub_calculate_mic_join)]
 #[kani::stub(<lorawan::default_crypto::DefaultCrypto as lorawan::keys::Crypto>::encrypt_block, stub_encrypt_block_join)]
 #[kani::unwind(74)]
 fn c11_otaa_handle_rx_in865_17() { otaa_handle_rx_contract::<true>(7, 17) }
-// @verif props=C11,C04,C07,C02 obligation=Otaa::handle_rx.contract[IN865,len=33] label=proved-complete tier=thorough bound="JoinAccept length 33 (the only lengths the parser accepts are 17 and 33; others: see len=12 harness); every byte of the received frame, of the decrypted frame and of the MIC symbolic"
+// @verif props=C11,C04,C07 obligation=Otaa::handle_rx.contract[IN865,len=33] label=proved-complete tier=thorough bound="JoinAccept length 33 (the only lengths the parser accepts are 17 and 33; others: see len=12 harness); every byte of the received frame, of the decrypted frame and of the MIC symbolic"
 #[kani::proof]
 #[kani::stub(lorawan::default_crypto::DefaultCrypto::new, stub_crypto_new)]
 #[kani::stub(<lorawan::default_crypto::DefaultCrypto as lorawan::keys::Crypto>::calculate_mic, stub_calculate_mic_join)]
 #[kani::stub(<lorawan::default_crypto::DefaultCrypto as lorawan::keys::Crypto>::encrypt_block, stub_encrypt_block_join)]
 #[kani::unwind(74)]
 fn c11_otaa_handle_rx_in865_33() { otaa_handle_rx_contract::<true>(7, 33) }
-// @verif props=C11,C04,C07,C02 obligation=Otaa::handle_rx.contract[US915,len=17] label=proved-complete tier=thorough bound="JoinAccept length 17 (the only lengths the parser accepts are 17 and 33; others: see len=12 harness); every byte of the received frame, of the decrypted frame and of the MIC symbolic"
+// @verif props=C11,C04,C07 obligation=Otaa::handle_rx.contract[US915,len=17] label=proved-complete tier=thorough bound="JoinAccept length 17 (the only lengths the parser accepts are 17 and 33; others: see len=12 harness); every byte of the received frame, of the decrypted frame and of the MIC symbolic"
 #[kani::proof]
 #[kani::stub(lorawan::default_crypto::DefaultCrypto::new, stub_crypto_new)]
 #[kani::stub(<lorawan::default_crypto::DefaultCrypto as lorawan::keys::Crypto>::calculate_mic, stub_calculate_mic_join)]
 #[kani::stub(<lorawan::default_crypto::DefaultCrypto as lorawan::keys::Crypto>::encrypt_block, stub_encrypt_block_join)]
 #[kani::unwind(74)]
 fn c11_otaa_handle_rx_us915_17() { otaa_handle_rx_contract::<true>(8, 17) }
-// @verif props=C11,C04,C07,C02 obligation=Otaa::handle_rx.contract[US915,len=33] label=proved-complete tier=quick bound="JoinAccept length 33 (the only lengths the parser accepts are 17 and 33; others: see len=12 harness); every byte of the received frame, of the decrypted frame and of the MIC symbolic"
+// @verif props=C11,C04,C07 obligation=Otaa::handle_rx.contract[US915,len=33] label=proved-complete tier=quick bound="JoinAccept length 33 (the only lengths the parser accepts are 17 and 33; others: see len=12 harness); every byte of the received frame, of the decrypted frame and of the MIC symbolic"
 #[kani::proof]
 #[kani::stub(lorawan::default_crypto::DefaultCrypto::new, stub_crypto_new)]
 #[kani::stub(<lorawan::default_crypto::DefaultCrypto as lorawan::keys::Crypto>::calculate_mic, stub_calculate_mic_join)]
